@@ -103,9 +103,56 @@ class C20(Prop):
         names = lang.variables(f)
         return {'formula': f, 'data': lang.gen_trace(rng, names, n)}
 
+    def gen_filtered(self, rng):
+        """A temporal operator reached through Boolean filters under a range context:
+        OUT( p1 B1 ( p2 B2 T(p3) ) ). The filters forward only the stretches where their other operand does not
+        decide, so T is asked to explain several disjoint intervals at once, each of which needs its own cause."""
+        n = rng.randint(6, 9)
+        pred = lambda var: lang.N(rng.choice(['gt', 'lt', 'geq', 'leq']), lang.V(var), lang.C(rng.choice([0.0, -1.0, 1.0])))
+        tmp = lambda g, names_: (lang.N(rng.choice(names_), g) if rng.random() < 0.7 else
+                                 (lambda a: lang.N(rng.choice(names_), g, ivl=(a, a + rng.randint(0, 4))))(rng.randint(0, 2)))
+        if rng.random() < 0.6:
+            # coherent template: the two filters test the same toggling variable with opposite polarity, the
+            # context and the inner operator are unbounded future operators (or span the whole trace)
+            pos = rng.random() < 0.5
+            p1 = lang.N('gt' if pos else 'lt', lang.V('x'), lang.C(0.0))
+            p2 = lang.N('lt' if pos else 'gt', lang.V('x'), lang.C(-1.0 if pos else 1.0))
+            p3 = lang.N(rng.choice(['gt', 'lt']), lang.V('y'), lang.C(0.0))
+            inner = lang.N(rng.choice(['always', 'eventually']), p3)
+            mid = lang.N(rng.choice(['or', 'and', 'implies']), *rng.sample([p2, inner], 2))
+            top = lang.N(rng.choice(['and', 'or', 'implies']), *rng.sample([p1, mid], 2))
+            o = rng.choice(['eventually', 'always'])
+            f = lang.N(o, top) if rng.random() < 0.5 else lang.N(o, top, ivl=(0, n - rng.randint(1, 3)))
+        else:
+            inner = tmp(pred('y'), ['always', 'eventually', 'always', 'eventually', 'once', 'historically'])
+            mid = lang.N(rng.choice(['or', 'and', 'implies']), *rng.sample([pred('x'), inner], 2))
+            top = lang.N(rng.choice(['and', 'or', 'implies']), *rng.sample([pred(rng.choice(['x', 'x', 'z'])), mid], 2))
+            if rng.random() < 0.15:
+                top = lang.N('not', top)
+            f = tmp(top, ['eventually', 'always', 'eventually', 'always', 'once', 'historically'])
+        names = lang.variables(f)
+        vals = [-2.0, -1.0, 1.0, 2.0, -3.0, 3.0, 0.0]
+        data = dict((k, [rng.choice(vals) for _ in range(n)]) for k in names)
+        if rng.random() < 0.7:
+            # x toggles (so the filters cut the context into disjoint stretches); y is mostly of one sign with a few
+            # exceptions, one of them late (so that a late sample is the only cause for the late stretches)
+            hi, lo, ph = rng.choice([1.0, 2.0]), rng.choice([-2.0, -3.0]), rng.randint(0, 1)
+            for k in names:
+                if k != 'y':
+                    data[k] = [(hi if (i + ph) % 2 == 0 else lo) if rng.random() < 0.85 else rng.choice(vals) for i in range(n)]
+            if 'y' in data:
+                sgn = rng.choice([1.0, -1.0])
+                ys = [sgn * rng.choice([1.0, 2.0, 3.0]) for _ in range(n)]
+                for i in rng.sample(range(n), rng.randint(1, 2)) + [rng.randint(n - 3, n - 1)]:
+                    ys[i] = -sgn * rng.choice([1.0, 2.0])
+                data['y'] = ys
+        return {'formula': f, 'data': data}
+
     def gen(self, rng, ctx):
         r = rng.random()
-        if r < 0.25:
+        if r < 0.2:
+            return self.gen_filtered(rng)
+        if r < 0.4:
             return self.gen_nested(rng)
         if r < 0.55:
             return self.gen_multi_occurrence(rng)
